@@ -161,38 +161,82 @@ def nontrivial(h):
     return sum(1 for s in h if s["a"] not in ("script",)) >= 2 and any(s["o"].get("cb") for s in h)
 
 
+def strip_all(h):
+    return [{k: v for k, v in s.items() if k not in ("o", "kf")} for s in h]
+
+
+def run_monitor(chk, monitor, hists, outs, dc, label, key=None):
+    """Direct property monitors on the ACTUAL observations (independent of the model's prediction)."""
+    n = 0
+    if not monitor:
+        return 0
+    for i, (h, o) in enumerate(zip(hists, outs)):
+        if not isinstance(o, dict) or "obs" not in o:
+            continue
+        for (k, msg) in monitor(h, o["obs"])[:1]:
+            n += 1
+            if n <= 4:
+                chk.violation("%s monitor scenario %d step %d: %s" % (label, i, k, msg),
+                              {"cfg": dc, "h": h, "fail_step": k, "msg": msg, "actual": o}, key=key)
+    return n
+
+
 def standard_run(pid, tier, seed, plan):
     """plan: mc=[(name, consts, invariants)], gen=[dict(name, consts, simulate, depth, units, ticks, tcp, max_hist)],
-    need=[histogram keys], need_actions=[...], rule, assumptions, known=[dict(name, consts, key, ...)]"""
+    need=[histogram keys], monitor=fn(h, actual_obs)->[(step,msg)], rule, assumptions,
+    known=[dict(name, consts, key, simulate, take)] canonical scenarios of open known findings"""
     chk = vkit.Check(pid, tier, seed)
     exe = vkit.cc("bev_drv", ["bev_drv.c"], vclock=True)
+    mon_of = lambda c: plan.get("monitor_by_kind", {}).get(c["Kind"]) or plan.get("monitor")
     for name, c, invs in plan.get("mc", []):
         res = model_check(chk, name, c, invariants=invs)
         chk.check_coverage(res, plan.get("need_actions", ["Api", "Closing"]), name)
     total = {}
     for g in plan["gen"]:
-        hs = generate(chk, g["name"], g["consts"], simulate=g.get("simulate"), depth=g.get("depth", 60),
+        hs = generate(chk, g["name"], g["consts"], simulate=g.get("simulate"), depth=g.get("depth", 40),
                       seed=seed if g.get("simulate") else None, max_hist=g.get("max_hist"),
                       invariants=g.get("invariants", ALL_INV))
         if not hs:
             raise vkit.InfraError("generator %s produced no histories" % g["name"])
         for h in hs:
-            chk.count_case(strip_obs(h), nontrivial(h))
+            chk.count_case(strip_all(h), nontrivial(h))
         for h in hs[-1:]:
-            chk.sample({"gen": g["name"], "history": strip_obs(h), "predicted": project(h, pid)[-2]["o"]})
+            chk.sample({"gen": g["name"], "history": strip_all(h), "predicted": project(h, pid)[-2]["o"]})
         for k, v in op_histogram(hs).items():
             total[k] = total.get(k, 0) + v
-        replay(chk, exe, hs, g["consts"], pid, units=g.get("units", (1,)), ticks=g.get("ticks", (1000,)),
-               tcp=g.get("tcp", 0), label=g["name"])
+        exp = project_all(hs, pid)
+        for unit in g.get("units", (1,)):
+            for tick in g.get("ticks", (1000,)):
+                dc = drv_cfg(g["consts"], unit=unit, tick_ns=tick, tcp=g.get("tcp", 0))
+                outs = vkit.run_driver(exe, [{"cfg": dc, "h": h} for h in hs])
+                fails = vkit.compare_histories(exp, adapt_actual(outs, pid))
+                chk.cov["traces_validated_against_impl"] += len(hs)
+                for (i, k, msg) in fails[:4]:
+                    chk.violation("%s unit=%d tick=%dns scenario %d step %d: %s" % (g["name"], unit, tick, i, k, msg),
+                                  {"cfg": dc, "h": hs[i], "fail_step": k, "msg": msg, "actual": outs[i]})
+                if fails:
+                    vkit.log("[replay] %s unit=%d tick=%d: %d/%d failed; first: scenario %d step %d %s" % (
+                        g["name"], unit, tick, len(fails), len(hs), fails[0][0], fails[0][1], fails[0][2][:600]))
+                nm = run_monitor(chk, mon_of(g["consts"]), hs, outs, dc, g["name"])
+                if nm:
+                    vkit.log("[monitor] %s unit=%d: %d scenarios flagged" % (g["name"], unit, nm))
     # canonical scenarios of open known findings: expected to fail; a pass means the finding is gone
     for kf in plan.get("known", []):
-        hs = generate(chk, kf["name"], kf["consts"], simulate=kf.get("simulate"), depth=kf.get("depth", 60), seed=seed,
-                      max_hist=kf.get("max_hist", 200), invariants=kf.get("invariants", ()))
-        hs = [h for h in hs if kf["select"](h)][:kf.get("take", 20)]
+        hs = generate(chk, kf["name"], kf["consts"], simulate=kf.get("simulate", 60), depth=40, seed=seed,
+                      invariants=("TypeOK",))
+        hs = sorted([h for h in hs if h[-1].get("kf", 0) > 0], key=len)[:kf.get("take", 10)]
         if not hs:
             raise vkit.InfraError("no canonical scenario generated for known finding %s" % kf["key"])
-        n = replay(chk, exe, hs, kf["consts"], pid, label=kf["name"], key_fn=lambda h, k, m, _k=kf["key"]: _k)
-        chk.cov.setdefault("known_finding_scenarios", {})[kf["key"]] = {"run": len(hs), "failing": n}
+        dc = drv_cfg(kf["consts"])
+        outs = vkit.run_driver(exe, [{"cfg": dc, "h": h} for h in hs])
+        fails = vkit.compare_histories(project_all(hs, pid), adapt_actual(outs, pid))
+        for (i, k, msg) in fails[:2]:
+            chk.violation("%s scenario %d step %d: %s" % (kf["name"], i, k, msg),
+                          {"cfg": dc, "h": hs[i], "fail_step": k, "msg": msg, "actual": outs[i]}, key=kf["key"])
+        nm = run_monitor(chk, mon_of(kf["consts"]), hs, outs, dc, kf["name"], key=kf["key"])
+        chk.cov["traces_validated_against_impl"] += len(hs)
+        chk.cov.setdefault("known_finding_scenarios", {})[kf["key"]] = {"run": len(hs), "model_mismatch": len(fails),
+                                                                        "monitor_flagged": nm}
     chk.cov["op_histogram"] = total
     missing = [o for o in plan.get("need", []) if total.get(o, 0) == 0]
     if missing:
@@ -200,3 +244,89 @@ def standard_run(pid, tier, seed, plan):
     chk.cov["rule"] = plan.get("rule", "")
     chk.assumptions += plan.get("assumptions", [])
     return chk.finish()
+
+
+# ---- direct monitors ------------------------------------------------------------------------------
+def far(kind, e):
+    return (2 if e == 3 else 3) if kind == "filt" else 3 - e
+
+
+def mon_c17(kind):
+    def m(h, obs):
+        out, eofs = [], {}
+        for k, o in enumerate(obs):
+            for i, x in enumerate(o["ep"]):
+                if x.get("bad", 0) != 0:
+                    out.append((k, "endpoint %d saw %d bytes that are not the next bytes of the numbered stream" % (i + 1, x["bad"])))
+            for cb in o["cb"]:
+                if cb["k"] == "e" and cb["f"] & 16:
+                    eofs[cb["e"]] = eofs.get(cb["e"], 0) + 1
+                    if eofs[cb["e"]] > 1:
+                        out.append((k, "EOF reported twice to endpoint %d" % cb["e"]))
+                    if cb["f"] & 1:
+                        f = far(kind, cb["e"])
+                        left = max(o["ep"][f - 1]["ol"], 0) + max(o["ep"][cb["e"] - 1].get("w", 0), 0)
+                        if kind == "filt":
+                            left += max(o["ep"][0]["il"], 0) if cb["e"] == 3 else max(o["ep"][0]["ol"], 0)
+                        if left > 0:
+                            out.append((k, "EOF reported to endpoint %d while %d units written before the shutdown are undelivered" % (cb["e"], left)))
+        return out
+    return m
+
+
+def mon_c18(kind):
+    def m(h, obs):
+        out = []
+        prev = None
+        for k, (s, o) in enumerate(zip(h, obs)):
+            for cb in o["cb"]:
+                if cb["k"] == "r" and cb["il"] < cb["rl"]:
+                    out.append((k, "read callback of endpoint %d ran with %d units buffered, low watermark %d" % (cb["e"], cb["il"], cb["rl"])))
+                if cb["k"] == "r" and cb["rh"] > 0 and cb["il"] > cb["rh"] and s["a"] == "loop" and kind != "filt":
+                    pass
+            prev = o
+        return out
+    return m
+
+
+def mon_c19(kind):
+    def m(h, obs):
+        out, conn, once = [], {}, {}
+        for k, o in enumerate(obs):
+            for cb in o["cb"]:
+                e = cb["e"]
+                if cb.get("dead"):
+                    out.append((k, "callback %s of endpoint %d ran after bufferevent_free" % (cb["k"], e)))
+                if cb["k"] == "e" and cb["f"] & 128:
+                    conn[e] = conn.get(e, 0) + 1
+                    if conn[e] > 1:
+                        out.append((k, "CONNECTED reported twice to endpoint %d" % e))
+                    if once.get((e, "io")):
+                        out.append((k, "endpoint %d: read/write callback ran before BEV_EVENT_CONNECTED" % e))
+                if cb["k"] in ("r", "w"):
+                    once[(e, "io")] = True
+                for bit, nm in ((16, "EOF"), (32, "ERROR")):
+                    for dbit, dn in ((1, "reading"), (2, "writing")):
+                        if cb["k"] == "e" and cb["f"] & bit and cb["f"] & dbit:
+                            once[(e, nm, dn)] = once.get((e, nm, dn), 0) + 1
+                            if once[(e, nm, dn)] > 1:
+                                out.append((k, "%s/%s reported twice to endpoint %d" % (nm, dn, e)))
+        return out
+    return m
+
+
+def mon_c20(kind):
+    def m(h, obs):
+        out = []
+        en_before = None
+        for k, o in enumerate(obs):
+            for cb in o["cb"]:
+                if cb["k"] == "e" and cb["f"] & 64:
+                    e = cb["e"]
+                    for dbit, enbit, dn in ((1, 2, "read"), (2, 4, "write")):
+                        if cb["f"] & dbit and en_before is not None and en_before[e - 1] >= 0 and not (en_before[e - 1] & enbit) \
+                                and h[k]["a"] == "loop" and len(o["cb"]) == 1:
+                            out.append((k, "%s timeout reported to endpoint %d although the direction was disabled" % (dn, e)))
+            en_before = [x["en"] for x in o["ep"]]
+        return out
+    return m
